@@ -96,13 +96,64 @@ def run(ctx: Ctx) -> Report:
     if len(vb.rejected) != 2:
         raise Machinery(f"C06 binding self-test failed: {vb.accepted}")
     rep.parts["binding_self_test"] = {"corrupted_traces_rejected": 2}
+    rep.merge(s2c_replay(ctx))
     t0 = traces[good[0]]
     rep.samples.append({"kind": "ReplayBuffer trace", "cap": t0["cap"], "rings": t0["N"], "events": t0["events"][:3]})
     rep.assumptions += ["rows carry a unique tag in every leaf of every field, so a field written from another insertion is visible"]
     return rep
 
 
+def s2c_replay(ctx: Ctx) -> Report:
+    """spec -> code: behaviours generated by TLC (simulation of MC_ReplayRing) are executed on real ReplayBuffers; after every
+    Add the projection of every real ring must equal the specification state (slot by slot, every field)."""
+    import jax
+    import jax.numpy as jnp
+    from .. import drive_replay as dr
+    from .. import tables as tb
+    from lerax.buffer import ReplayBuffer
+    rep = Report()
+    behs = tlc.simulate("mc/MC_ReplayRing.tla", "mc/MC_ReplayRing_N2.cfg", workdir=ctx.work, num=ctx.pick(24, 200), depth=9, seed=ctx.seed + 5)
+    kinds = ["flat", "dict", "tuple_boxact"]
+    n_adds = 0
+    for bi, beh in enumerate(behs):
+        kind = kinds[bi % 3]
+        cfg = beh[0][2]["cfg"]
+        cap, N = cfg["cap"], cfg["N"]
+        osp, asp = dr.spaces(kind)
+        bufs = [ReplayBuffer(cap, osp, asp, tb.TPState(jnp.asarray(0, dtype=jnp.int32))) for _ in range(N)]
+        empty = dr.slot_codes(kind, bufs[0], 0)
+        prev_hist = beh[0][2]["hist"]
+        for step, (name, args, state) in enumerate(beh[1:], start=1):
+            hist = state["hist"]
+            grown = [r for r in range(N) if len(hist[r]) == len(prev_hist[r]) + 1]
+            prev_hist = hist
+            if len(grown) != 1:
+                continue
+            e, row = grown[0] + 1, hist[grown[0]][-1]
+            args = [e, row]
+            bufs[e - 1] = dr._add(bufs[e - 1], dr.row_args(kind, row))
+            n_adds += 1
+            for r in range(N):
+                spec_ring = state["rings"][r] if isinstance(state["rings"], list) else state["rings"][r + 1]
+                host = jax.device_get(bufs[r])
+                real = dr.ring_proj(kind, host, cap)
+                slots = spec_ring["slots"]
+                want = [(empty if slots[i] == 0 else dr.codes(kind, *jax.device_get(dr.row_args(kind, slots[i])))) for i in range(cap)]
+                if real != want or int(host.position) != spec_ring["pos"]:
+                    rep.violations.append(Violation("C06:s2c:ring_state_differs",
+                                                    f"after step {step} ({name}{args}) of a TLC behaviour the real ring {r + 1} (cap {cap}, kind {kind}) is "
+                                                    f"pos={int(host.position)} slots={real} but the specification says pos={spec_ring['pos']} slots={want}",
+                                                    "s2c", {"kind": kind, "cap": cap, "N": N, "step": step}))
+                    break
+    rep.traces += len(behs)
+    rep.evaluations += n_adds
+    rep.parts["S2C_ReplayRing_behaviours"] = {"tlc_behaviours_replayed": len(behs), "adds": n_adds}
+    return rep
+
+
 def replay(ctx: Ctx, driver: str, case: dict) -> Report:
+    if driver == "s2c":
+        return s2c_replay(ctx)
     rep = Report()
     traces = record([case])
     v = tracecheck.validate(ctx, SPEC, traces, "replay")
